@@ -109,6 +109,16 @@ def std_actions(ty: str, variant: str) -> List[str]:
             acts.append("GetUserName")
         if variant == "vendor":
             acts.append("GetPortMappingNumberOfEntries")
+        # the UPnP templates mark RequestTermination (and the vendor action) optional: a gateway offering both
+        # versions of WANIPConnection may implement them in one version only
+        if variant == "opt-v2" and ty == T_IP2:
+            acts.append("GetPortMappingNumberOfEntries")
+        if variant == "opt-v2" and ty == T_IP1:
+            acts.remove("RequestTermination")
+        if variant == "opt-v1" and ty == T_IP1:
+            acts.append("GetPortMappingNumberOfEntries")
+        if variant == "opt-v1" and ty in (T_IP2, T_PPP):
+            acts.remove("RequestTermination")
         if variant == "reduced":
             acts = [a for a in acts if a not in ("RequestTermination", "GetNATRSIPStatus", "GetStatusInfo", "AddPortMapping")]
     elif ty == T_CIC:
@@ -602,6 +612,11 @@ SERIES_CFGS = [
 ]
 
 CORPUS = [
+    # F20b: both versions of WANIPConnection offered, an optional action implemented by one of them only
+    {"kind": "routing", "types": [T_IP1, T_IP2], "placement": "standard", "variant": "opt-v1",
+     "ops": ["async_request_termination", "async_get_port_mapping_number_of_entries", "async_get_external_ip_address"]},
+    {"kind": "routing", "types": [T_IP1, T_IP2], "placement": "standard", "variant": "opt-v2",
+     "ops": ["async_request_termination", "async_get_port_mapping_number_of_entries", "async_get_external_ip_address"]},
     # F20a: PPP-only gateway, connection-level operations
     {"kind": "routing", "types": [T_PPP], "placement": "standard", "variant": "std",
      "ops": ["async_get_external_ip_address", "async_get_status_info", "async_add_port_mapping"]},
@@ -634,8 +649,10 @@ def generate(ctx: Ctx) -> List[Case]:
     for r in range(0, 6):
         for subset in itertools.combinations(FIVE, r):
             for placement in ("root", "standard", "wan", "nested"):
-                for variant in ("std", "vendor", "reduced"):
+                for variant in ("std", "vendor", "reduced", "opt-v1", "opt-v2"):
                     if variant == "reduced" and placement in ("wan",):
+                        continue
+                    if variant.startswith("opt-") and not (T_IP1 in subset and T_IP2 in subset and placement in ("standard", "root")):
                         continue
                     explicit = []
                     if variant == "std" and placement in ("standard", "root"):
